@@ -967,7 +967,10 @@ func wrapDisabled(d, exp Exp, lookup *TypeLookup) (Exp, error) {
 			m := *v
 			m.Value = make(map[string]Exp, len(m.Value))
 			fork := make(map[*CallStm]CollectionIndex, 1)
-			for k, vv := range v.Value {
+			// Wrap the entries in sorted key order, so that the order of
+			// the reported errors is repeatable.
+			for _, k := range v.sortedKeys() {
+				vv := v.Value[k]
 				v, err := wrapDisabled(vv, exp, lookup)
 				if err != nil {
 					errs = append(errs, err)
